@@ -241,8 +241,11 @@ class Builder:
 
         footer = Comment(f'Generated by: dznpy/adv_shell v{VERSION}')
 
+        # an encapsulee in the global namespace gets no (anonymous) namespace around its shell
+        body = cpp.namespace if cpp.namespace.ns_ids.items else cpp.namespace.contents
+
         return GeneratedContent(filename=f'{cpp.target_file_basename}.hh',
-                                contents=str(TextBlock([header, cpp.namespace, footer])))
+                                contents=str(TextBlock([header, body, footer])))
 
     def _create_sourcefile(self) -> GeneratedContent:
         """Generate a c++ sourcefile according to the current recipe."""
@@ -278,8 +281,11 @@ class Builder:
 
         footer = Comment(f'Generated by: dznpy/adv_shell v{VERSION}')
 
+        # an encapsulee in the global namespace gets no (anonymous) namespace around its shell
+        body = cpp.namespace if cpp.namespace.ns_ids.items else cpp.namespace.contents
+
         return GeneratedContent(filename=f'{cpp.target_file_basename}.cc',
-                                contents=str(TextBlock([header, cpp.namespace, footer])))
+                                contents=str(TextBlock([header, body, footer])))
 
     def _create_creator_info_overview(self) -> Optional[str]:
         """Create the creator information overview"""
